@@ -121,7 +121,7 @@ class _TextCueParser:
 
     if tag.startswith("ruby"):
       if self.ruby_rbc is not None or self.ruby_rtc is not None:
-        raise RuntimeError("Nested ruby tags are not allowed.")
+        raise ValueError("Nested ruby tags are not allowed.")
       span = model.Ruby(self.parent.get_doc())
 
       # wrap <rb> and <rt> into <rbc> and <rtc>
